@@ -132,6 +132,50 @@ def check_years(case, res):
     res.outcome("year_sequences")
 
 
+def check_multi(case, res):
+    """several load years given at once (HybridLoad(years=[...]) / load_years of the GHE and design classes): every month of every year
+    carries that year's energy"""
+    years = case["years"]
+    A = LG.pattern_alphabet()
+    loads, refs, ends, acc = [], [], [], 0
+    for k, y in enumerate(years):
+        leap = y % 4 == 0
+        dim = LG.DAYS_IN_MONTH_LEAP if leap else LG.DAYS_IN_MONTH
+        base = LG.build_profile([dict(A[case["patterns"][k % len(case["patterns"])]], pc=6.0 * case["scales"][k], ph=5.0 * case["scales"][k])] * 12)
+        yl = leapify(base) if leap else base
+        loads += yl
+        refs += LG.monthly_reference(yl, dim if leap else None)
+        for mth in range(12):
+            acc += 24 * dim[mth]
+            ends.append(acc)
+    n_months = 12 * len(years)
+    res["evals"] += 1
+    try:
+        hl = hybrid.make_hybrid(loads, n_months, years=list(years))
+    except Exception as e:  # noqa: BLE001
+        res["violations"].append(core.viol("hybrid_load_raised", case, msg=f"HybridLoad(years={years}) raised {type(e).__name__}: {e}", exc=type(e).__name__, multi_year=True))
+        return
+    try:
+        en, _ = hybrid.month_energies(hl, n_months, ends)
+    except LookupError as e:
+        res["violations"].append(core.viol("no_month_end_breakpoint", case, msg=f"years={years}: no breakpoint at the end of simulated month {e.args[0]} (hour {ends[e.args[0] - 1]})",
+                                           month=((e.args[0] - 1) % 12) + 1, multi_year=True, has_leap=any(y % 4 == 0 for y in years)))
+        return
+    for m in range(n_months):
+        r = refs[m]
+        want = r["rej_kwh"] - r["ext_kwh"]
+        tol = 1e-6 * max(1.0, abs(want), r["peak_rej"], r["peak_ext"], r["rej_kwh"], r["ext_kwh"])
+        if abs(en[m] - want) > tol:
+            res["violations"].append(core.viol("month_energy_not_conserved", case, observed=en[m], expected=want,
+                                               msg=f"years={years}: simulated month {m + 1} (year {years[m // 12]}, month {(m % 12) + 1}): hybrid {en[m]:.6f} kWh, that year's hourly input {want:.6f} kWh",
+                                               direction="n/a", same_day=False, first_day_heating_peak=False, start_clamped=False, sim_month_1=(m == 0), multi_year=True,
+                                               has_leap=any(y % 4 == 0 for y in years), load_year=m // 12 + 1))
+            break
+    res.outcome("multi_year")
+    res["nontrivial"] += 1
+    res["sample"] = dict(case)
+
+
 def expand(chunk):
     kind = chunk["kind"]
     hz = chunk["horizons"]
@@ -165,6 +209,9 @@ def expand(chunk):
 
 def run_case(case):
     res = core.Result(evals=0)
+    if "years" in case and "scales" in case:
+        check_multi(case, res)
+        return res
     if "years_sequence" in case:
         check_years(case, res)
         res["sample"] = dict(case, patterns="...") if "patterns" in case else dict(case)
@@ -225,6 +272,12 @@ def main(run: core.Run, only=None):
     run.drive(st, family="start-month")
     ar = [{"profile": "patterns", "patterns": [A[i]] * 12, "horizons": [12, 25], "as_array": True} for i in sel] + [{"profile": "office", "horizons": [24], "as_array": True}]
     run.drive(ar, family="caller-array-used-twice")
+    my = [{"years": ys, "scales": sc, "patterns": pt} for ys in ([2017, 2018, 2019], [2021, 2022], [2018, 2019, 2021, 2022]) for sc, pt in (([1.0, 1.3, 0.8, 1.1], [8, 45, 100]), ([0.7, 1.0, 1.6, 0.9], [70, 70, 38]))]
+    my += [{"years": ys, "scales": [1.0, 1.3, 0.8], "patterns": [8, 45, 100]} for ys in ([2019, 2020, 2021], [2020, 2021])]
+    run.drive(my, family="several-load-years")
+    # small plants: a direction whose monthly peak is below 100 W
+    small = [{"profile": "patterns", "patterns": [dict(A[i], pc=pc, ph=ph)] * 12, "horizons": [12, 25]} for i in sel for pc, ph in ((0.06, 0.05), (6.0, 0.04), (0.09, 5.0))]
+    run.drive(small, family="peaks-below-100-W")
     return run.finish(
         rule="profiles built from month patterns (direction x peak day {first,2nd,15th,last-1,last} x shape {1 h, 6 h, 30 h} x base "
              "{0, 20 %}); P0 = same pattern every month (whole alphabet), P1 = one deviating month in {Jan,Feb,Jun,Dec} over the "
